@@ -5,4 +5,5 @@ CONSTANT MutMax = 1
 CONSTANT ExhMax = 2
 CONSTANT RandPer = 20
 CONSTANT Fuzz = TRUE
+CONSTANT MutAll = TRUE
 CHECK_DEADLOCK FALSE
